@@ -45,7 +45,7 @@ def write_project():
     if not os.path.exists(p) or open(p).read() != txt:
         open(p, "w").write(txt)
         sh("coq_makefile -f _CoqProject -o Makefile", cwd=COQ)
-    elif not os.path.exists(os.path.join(COQ, "Makefile")):
+    elif not os.path.exists(os.path.join(COQ, "Makefile")) or os.path.getmtime(os.path.join(COQ, "Makefile")) < os.path.getmtime(p):
         sh("coq_makefile -f _CoqProject -o Makefile", cwd=COQ)
 
 def make(targets=None, timeout=2400):
